@@ -6,7 +6,7 @@ COMMON_ASSUMPTIONS = [
 ]
 
 CHECKS = {
-    "RIBQ": dict(runs=[dict(pkg="rib", harness=h, reach=["end","pre-built"]) for h in ("VfRIB_q1","VfRIB_q2","VfRIB_qNoFwd")], level_text="", level_note=""),
+    "RIBQ": dict(runs=[dict(pkg="rib", harness=h, reach=["end","pre-built"]) for h in ("VfRIB_q3",)], level_text="", level_note=""),
     "SMOKE": dict(runs=[dict(pkg="rib", harness="VfSmoke_AddNH", reach=["end","zero","installed"])], level_text="", level_note=""),
     "C05": dict(
         runs=[
@@ -66,6 +66,7 @@ _B = dict(
     VfRIB_t2="pre-state 1 next-hop, 1 group, 1 IPv4 entry; TWO consecutive symbolic operations",
     VfRIB_tOrder="pre-state 1 next-hop, 1 group, 2 held operations; one symbolic next-hop/group ADD/REPLACE; every iteration order of the held-operation map",
 )
+_B["VfRIB_q3"] = "pre-state 1 next-hop, 1 group, 1 stale held REPLACE (its key was deleted after it was held); one symbolic operation"
 _RQ = [(h, _B[h]) for h in ("VfRIB_q1", "VfRIB_q2", "VfRIB_qNoFwd")]
 _RT = [(h, _B[h]) for h in ("VfRIB_t1", "VfRIB_t2", "VfRIB_tOrder")]
 _RIBNOTE = "Trusted: go/ssa, gosym, z3, the Go models of candidateRIB/MergeStructInto (validated natively by TestVfModelAgreement on the modelled fields), the reference RIB in harness/rib/vf_ref.go. Payload = key, group reference (+instance), entry metadata, group members/weights/backup/colour, next-hop network-instance; other payload fields are outside (C07)."
@@ -85,6 +86,17 @@ CHECKS["C12"] = dict(
     assumptions=["what happens inside the real candidateRIB (protomap/ytypes) is replaced by its model, which returns an error or a value and never panics; a concrete probe shows the real pipeline panics for undefined enum numbers such as encapsulate_header=99 - outside this check (DESIGN.md C12)",
                  "nil elements inside repeated fields are not wire-representable and are excluded"],
     level_text="Bounded symbolic execution of the operation path with malformed content at every level: no path panics, every malformed operation is answered FAILED or by a clean RPC error, and a structural before/after comparison of tables, counters and held set shows no effect.",
+    level_note=_RIBNOTE)
+
+_B["VfRIB_q3"] = "pre-state 1 next-hop, 1 group, 1 stale held REPLACE (its key was deleted after it was held); one symbolic operation"
+CHECKS["C06"] = dict(
+    runs=[dict(pkg="server", harness="VfC06_doModify", reach=["end"],
+               bounds="doModify/modifyEntry/real RIB: elected primary with FIB-ack on/off, 0-1 held operation, a request of 1-2 symbolic operations (next-hop / group / IPv4 entry; ADD/REPLACE/DELETE; any instance name incl. empty and unknown; symbolic keys and references)"),
+          dict(pkg="server", harness="VfC06_handover", reach=["end"],
+               bounds="hand-over of the primary role while an operation is held: one scripted history with symbolic member / next-hop index")]
+         + _rib(["C06:"], [(h, _B[h]) for h in ("VfRIB_q2", "VfRIB_q3")], _RT),
+    assumptions=["response streams are observed at doModify's result channel (the result pump of Modify forwards them unchanged; its scheduling is C10/C11's subject)"],
+    level_text="Bounded symbolic execution of doModify + RIB from symbolic requests: per-id verdict counting over the emitted results, RIB-before-FIB order, and held-set bookkeeping (answered xor held) decided for all symbolic keys/references/instance names.",
     level_note=_RIBNOTE)
 
 NOT_APPLICABLE = {
